@@ -184,6 +184,24 @@ def diff_ok(pair: str, amode: int, omode: int, a: int, b: int, c: int, d: int) -
     return True
 
 
+def reuse(amode: int, a: int, b: int, c: int, d: int) -> bool:
+    """One Differ compared against two documents in turn reports the second comparison like a fresh Differ does."""
+    lhs = cmap(("k", a), ("l", cseq(b, None)))
+    r1 = cmap(("k", c), ("l", cseq(d)), ("x", 1))
+    r2 = cmap(("k", d), ("l", cseq(b, None, c)))
+    args = SimpleNamespace(config=None, arrays=ARRAY_MODES[amode], aoh="position")
+    used = Differ(DifferConfig(LOG, args), LOG, lhs)
+    used.compare_to(r1)
+    list(used.get_report())
+    used.compare_to(r2)
+    fresh = Differ(DifferConfig(LOG, args), LOG, cmap(("k", a), ("l", cseq(b, None))))
+    fresh.compare_to(cmap(("k", d), ("l", cseq(b, None, c))))
+    u = [(e.action, str(e.path), to_plain(e.lhs), to_plain(e._rhs)) for e in used.get_report()]
+    f = [(e.action, str(e.path), to_plain(e.lhs), to_plain(e._rhs)) for e in fresh.get_report()]
+    note(reused=[(x[0].name,) + x[1:] for x in u], fresh=[(x[0].name,) + x[1:] for x in f])
+    return u == f and to_plain(lhs) == {"k": a, "l": [b, None]}
+
+
 def accounting(amode: int, a: int, b: int, c: int, d: int, e: int) -> bool:
     """Value-synchronised arrays: each left element once as same/changed/deleted, each right once as same/changed/added."""
     lhs, rhs = cmap(("l", cseq(a, b, c))), cmap(("l", cseq(d, e)))
@@ -220,6 +238,9 @@ def shards(tier, seed):
                              desc="%s; arrays=%s aoh=%s" % (PAIRS[name][1], ARRAY_MODES[am], AOH_MODES[om]),
                              bounds={"a..d": "[-2,2] (all equal/unequal patterns of 4 leaves)"}))
     for am in (0, 1):
+        out.append(shard(PID, "reuse/%s" % ARRAY_MODES[am], "harness.c06", "reuse(%d, a, b, c, d)" % am,
+                         [("a", "int"), ("b", "int"), ("c", "int"), ("d", "int")], [leaves], family="reuse", budget=900,
+                         desc="one Differ used for two comparisons in a row vs a fresh Differ; left document untouched"))
         out.append(shard(PID, "accounting/%s" % ARRAY_MODES[am], "harness.c06", "accounting(%d, a, b, c, d, e)" % am,
                          [("a", "int"), ("b", "int"), ("c", "int"), ("d", "int"), ("e", "int")],
                          [leaves + " and -2 <= e <= 2"], family="accounting", budget=900,
